@@ -12,6 +12,10 @@ CLAIMED = {
              note="Trusted: truth-table model, set model of the table, allocator seam. Probe chains < 255 assumed (u8 probe length in the table)."),
  "C16": dict(section="5 C16", text="The lossy cache driven directly with adversarial colliding hashes / all capacities / forced growth against a last-value map (only wrong values are violations), and twin execution: the same history on a lossy, fault-injected builder and on a fault-free cache-everything twin must give identical canonical diagrams. Sampling evidence.",
              note="Trusted: map model, structural signature function, allocator seam. A cache may always answer None."),
+ "C09": dict(section="5 C09", text="Seeded simulation of decide/pop histories (1-3 logical callers, any variable and polarity, refused decisions followed by more work on the same solver) on the real SATSolver over random small CNFs, checked after every step against brute-force entailment over all <= 64 models, a clause-by-clause fixpoint check, a shadow stack for pop, and hash-vs-residual-formula injectivity. Sampling evidence; the space explored is the call schedule (this component has no cache or allocator dependence, so no fault kinds apply).",
+             note="Trusted: brute-force model enumeration, shadow stack. Bounds: <= 6 variables, <= 8 clauses, <= 120 calls. Hash clause asserted only while the prime product fits in 128 bits."),
+ "C15": dict(section="5 C15", text="Seeded simulation of CnfHasher push/decide/pop/hash histories (caller's partial model kept in step, also hashed with extra assignments) against a residual-formula reference (equal residual => equal hash; equal hash => equal residual while the prime product fits 128 bits), and of PartialModel / VarSet mutation histories against explicit sets; Cnf::new/eval/is_sat_partial/condition chains/brute-force wmc ride along as generated inputs checked against explicit assignment sets (for those clauses the simulator adds nothing beyond seeded generation). Sampling evidence.",
+             note="Trusted: explicit-set reference implementations in the harness. Bounds: <= 6 variables, <= 8 clauses, <= 124 calls; exact dyadic / modular weights."),
 }
 
 NA = {
